@@ -84,6 +84,11 @@ def _per_rank_path(db, chk, where2, TR, r, calls, ptag):
                    accepted="a predicate over stream alone", why="a predicate that also looks at dur/cat drops device activities (e.g. zero-length ones at the span's ends)")
         chk.ob("C04.R2-device-rows", "merge input is the device rows in file order with their own ts/dur", c1["arg_ctx"][0] == TR and c1["ts"] == T.col(TR, "ts") and c1["dur"] == T.col(TR, "dur"),
                where2, found=[T._ctx(c1["arg_ctx"]), T.show(c1["ts"]), T.show(c1["dur"])], accepted="rows of the trace frame, columns ts and dur")
+        # the COMPUTATION selection may be empty (a rank that only communicates / copies): its measure must be computed without positional row reads
+        pos_reads = [e for e in r.events if e["kind"] == "iloc-row" and e.get("base") == c2["frame"].base]
+        chk.ob("C04.R2-arithmetic", "compute_time is defined for a rank without computation kernels (no positional row read on the merged COMPUTATION intervals)" + ptag, not pos_reads, where2,
+               found=[f"iloc[{e['pos']}] at line {e['line']}" for e in pos_reads] or "sums only", accepted="merged.end.sum() - merged.ts.sum()  (0 for an empty selection)",
+               why="`.iloc[0]` / `.iloc[-1]` on the merged computation intervals raises IndexError for a rank whose device activities are all communication or memory copies")
         # kernel type column
         kt_expected = KT.kernel_type_term(db, ("getitem", T.P("sym_table"), T.col(TR, "name")))
         P2 = c2["arg_ctx"][1]
